@@ -48,7 +48,8 @@
                      (write-string "}"))
                    (get-output-string out))))))
     (cond (res (write-string res) (newline))
-          (else (emit-error id)))))
+          (else (emit-error id)))
+    (flush-output-port)))
 
 (define (run-sre sre cases)
   ;; the first subject goes through the SRE datum itself (compiled by every call), the others
